@@ -720,6 +720,8 @@ class Canon:
                 body = getattr(fn, field_)
                 setattr(fn, field_, [ex.visit(s) for s in body])
             self.fn = fn
+            if self._type_tuples(fn):
+                ex.changed = True
             is_gen = any(isinstance(n, (ast.Yield, ast.YieldFrom)) for n in _own_nodes(fn))
             self.is_gen = is_gen
             self.fn_returns_value = any(isinstance(n, ast.Return) and n.value is not None for n in _own_nodes(fn))
@@ -729,14 +731,58 @@ class Canon:
             if not (self.changed or ex.changed):
                 break
 
+    def _type_tuples(self, fn: ast.AST) -> bool:
+        """`isinstance(x, NUMBER_TYPES)` / `except ERRORS:` with a module-level tuple of class names, assigned
+        once: the tuple is written out, so that every rule reads the classes themselves."""
+        table: Dict[str, ast.expr] = getattr(self, "type_tuples", {})
+        if not table:
+            return False
+        local = NameFacts(fn).stores
+        params = {a.arg for a in ast.walk(fn) if isinstance(a, ast.arg)}
+        hit = False
+        for n in _own_nodes(fn):
+            if isinstance(n, ast.Call) and isinstance(n.func, ast.Name) and n.func.id in ("isinstance", "issubclass") and len(n.args) == 2:  # noqa: PLR2004
+                a = n.args[1]
+                if isinstance(a, ast.Name) and a.id in table and not local.get(a.id) and a.id not in params:
+                    n.args[1] = _loc(copy.deepcopy(table[a.id]), a)  # type: ignore[assignment]
+                    hit = True
+            elif isinstance(n, ast.ExceptHandler) and isinstance(n.type, ast.Name):
+                a = n.type
+                if a.id in table and not local.get(a.id) and a.id not in params:
+                    n.type = _loc(copy.deepcopy(table[a.id]), a)  # type: ignore[assignment]
+                    hit = True
+        return hit
+
     def tree(self, tree: ast.AST) -> None:
         # module-level constant tables (`_SWAPS = (("a", "b"), ("c", "d"))`): a loop over one is a literal loop
         self.constants: Dict[str, ast.expr] = {}
+        counts: Dict[str, int] = {}
+        for n in ast.walk(tree):
+            if isinstance(n, ast.Name) and isinstance(n.ctx, (ast.Store, ast.Del)):
+                counts[n.id] = counts.get(n.id, 0) + 1
+            elif isinstance(n, ast.Global):
+                for g in n.names:
+                    counts[g] = counts.get(g, 0) + 2
+
+        def const_like(x: ast.expr) -> bool:
+            # a literal, or a name that is bound at most once in the whole module (a module constant, an import)
+            return isinstance(x, ast.Constant) or (isinstance(x, ast.Name) and counts.get(x.id, 0) <= 1)
+
         for st in getattr(tree, "body", []):
             if isinstance(st, ast.Assign) and len(st.targets) == 1 and isinstance(st.targets[0], ast.Name) and isinstance(st.value, (ast.Tuple, ast.List)):
-                if all(isinstance(x, ast.Constant) or (isinstance(x, (ast.Tuple, ast.List)) and all(isinstance(y, ast.Constant) for y in x.elts))
+                if counts.get(st.targets[0].id) != 1:
+                    continue
+                if all(const_like(x) or (isinstance(x, (ast.Tuple, ast.List)) and all(const_like(y) for y in x.elts))
                        for x in st.value.elts):
                     self.constants[st.targets[0].id] = st.value
+        # module-level tuples of class names, assigned once (`_NUMBER_TYPES = (int, float, Decimal)`)
+        self.type_tuples: Dict[str, ast.expr] = {}
+        for st in getattr(tree, "body", []):
+            if isinstance(st, ast.Assign) and len(st.targets) == 1 and isinstance(st.targets[0], ast.Name) and isinstance(st.value, ast.Tuple):
+                name = st.targets[0].id
+                if counts.get(name) == 1 and st.value.elts and all(
+                        isinstance(x, ast.Name) or (isinstance(x, ast.Attribute) and _is_path(x)) for x in st.value.elts):
+                    self.type_tuples[name] = st.value
         for n in ast.walk(tree):
             if isinstance(n, FuncNode):
                 self.function(n)
@@ -1190,6 +1236,33 @@ class Canon:
             r4 = self._unroll(s, rest)
             if r4 is not None:
                 return r4, 0
+            # a loop over one literal element that ends the body of an enclosing loop: its `continue` is the
+            # enclosing loop's `continue` (`for m in (match,): ... continue ...`  ->  `m = match; ...`)
+            if (
+                ctx == "loop" and is_last and isinstance(s.iter, (ast.Tuple, ast.List)) and len(s.iter.elts) == 1
+                and isinstance(s.target, ast.Name) and _simple(s.iter.elts[0])
+            ):
+                def own_break(stmts: List[ast.stmt]) -> bool:
+                    for st in stmts:
+                        if isinstance(st, ast.Break):
+                            return True
+                        if isinstance(st, (ast.For, ast.AsyncFor, ast.While)):
+                            if own_break(st.orelse):
+                                return True
+                            continue
+                        for f in ("body", "orelse", "finalbody"):
+                            if own_break(getattr(st, f, []) or []):
+                                return True
+                        if isinstance(st, ast.Try) and any(own_break(h.body) for h in st.handlers):
+                            return True
+                    return False
+
+                x = s.target.id
+                facts = NameFacts(self.fn)
+                if (not own_break(s.body) and facts.stores.get(x, 0) == 1 and facts.loads.get(x, 0) == _all_loads(s, x)
+                        and x not in facts.nested_refs):
+                    sub = _Subst(x, s.iter.elts[0])
+                    return [sub.visit(copy.deepcopy(b)) for b in s.body], 0
             return None
         if isinstance(s, ast.Try):
             # S16 `try: ...; return e  except: H(jumps)`  ->  `try: ...; r = e  except: H` ; `return r`
